@@ -81,6 +81,13 @@ P.update({
           TECH),
 })
 
+P.update({
+  'C12': (True, 'Admission.tla',
+          'The admission rules are a decision table in Admission.tla (blacklist hit, non-empty whitelist miss, NaN, timestamp -1 -> now, rounding down to MIN_TIMESTAMP_RESOLUTION, list-file semantics with comment / blank / invalid lines, search not match); thousands of cases - list files written to disk and loaded by the real WhiteList/BlackList objects, names that hit and narrowly miss, values incl. NaN/inf, timestamps incl. -1, fractional and negative, resolutions 0/1/10/60 - are sent through the real line, UDP and pickle listeners, and TLC evaluates the table against the recorded outcome (admitted?, timestamp, name/value unchanged, the two counters) for every case.',
+          'regular-expression matching is restricted to a literal grammar that the specification can decide (value oracle); protocols.time is a fixed virtual clock',
+          'explicit TLA+ decision table evaluated by TLC on recorded executions of the real listeners (oracle evaluation)'),
+})
+
 PENDING_REASON = 'check not built yet in this round (planned per DESIGN.md section 5); not claimed until its TLA+ model and conformance harness exist'
 
 
